@@ -92,7 +92,7 @@ PROPS = {
     "C15": {"groups": {"proto_enum": Q(55987, 55987), "proto_send_enum": Q(74898, 74898), "proto": Q(160000, 1500000)}, "rule": None, "explanation": "theorems dispatch_spec, tick_spec (+ reach_sorted for the handler table), and tick_spec proved about Protocol::tick as translated from src/protocol.rs on every run (C15_src_tick_*) + the real Protocol over a scripted Interface"},
     "C16": {"groups": {"proto_send_enum": Q(74898, 74898), "proto": Q(160000, 1500000), "psend_usart": Q(20000, 200000), "psend_can": Q(20000, 200000), "psend_serial": Q(20000, 200000)}, "rule": None, "explanation": "theorems sendPacket_spec, nested_send_spec (re-entrant sends from callbacks), send_result, and the routing specification proved about Protocol::send_packet as translated from src/protocol.rs on every run (C16_src_sendPacket_*) + the real Protocol over a scripted Interface"},
     "C17": {"groups": {"proto_enum": Q(55987, 55987), "proto": Q(160000, 1500000)}, "rule": None, "explanation": "theorems nextId_fresh, add_spec, remove_spec, reach_sorted, removed_never_called(_nested), and nextId_fresh / remove_spec proved about get_next_handler_id / remove_packet_handler as translated from src/protocol.rs on every run (C17_src_*) + the real Protocol over a scripted Interface"},
-    "C18": {"groups": {"proto": Q(160000, 1500000)}, "rule": None, "explanation": "theorems exchangeLoop_first/timeout/error, exchangeAllLoop_spec, exchange_prefix + the real exchange_packet / exchange_packets instantiated for all 16 event types"},
+    "C18": {"groups": {"proto_xchg_enum": Q(44816, 44816), "proto": Q(160000, 1500000)}, "rule": None, "explanation": "theorems exchangeLoop_first/timeout/error, exchangeAllLoop_spec, exchange_prefix + the real exchange_packet / exchange_packets instantiated for all 16 event types"},
     "C19": {
         "groups": {"rxh_usart": Q(60000, 400000), "rxh_serial": Q(60000, 400000), "rxh_can": Q(60000, 400000)},
         "rule": "the hostile histories of C06, with a counting global allocator read after every poll; distinct by input text; non-trivial = at least 3 polls returned something other than 'nothing'",
@@ -106,6 +106,7 @@ for k in ("C15", "C16", "C17", "C18"):
 
 
 ENUM_SCOPES = {
+    "proto_xchg_enum": "every receive queue of at most 4 items over {nothing, link error, ack for the device / for another device / for everybody, another event for the device, an error-flagged ack for the device} x {exchange_packet, exchange_packets} x {capture-all or not} x {request to another device, to the device itself} on devices 0x0005 and 0xffff, followed by a draining exchange and a tick (44816 histories)",
     "proto_send_enum": "every history of at most 5 operations over {register a plain handler, register a capture-all handler whose callback sends to the device's own address (re-entrant loop-back), register a handler whose callback sends to another device, remove id 0, tick, send to own / other / broadcast address} on devices 0x0005 and 0xffff, the link delivering own / foreign / broadcast packets in turn and failing every second transmission (74898 histories)",
     "proto_enum": "every history of at most 6 operations over {register own-address handler, register capture-all handler, remove id 0 / 1 / 2, tick} on a device whose link alternately delivers a packet for it and a packet for another device (55987 histories)",
     "sched_usart_enum": "three packet sets (1, 2 and 1+3+1 frames): every placement of one or two would-blocks before any byte of the wire, and a would-block before every byte (14076 index points incl. fillers)",
